@@ -57,6 +57,10 @@ F = {
     'f_export': '\tcpu 6502\nx\tequ 5\n\tnop\n\texport_sym x\n\tfoo\n',
     'f_export_first': '\tcpu 6502\nx\tequ 5\n\texport_sym x\n\tjmp later\n\tfoo\nlater:\n',
     'f_ok_export': '\tcpu 6502\nx\tequ 5\n\tnop\n\tjmp later\nlater:\tnop\n\texport_sym x\n',
+    # nameless temporary labels: the log of `-`/`/` labels belongs to one file
+    'f_ok_tmplab': '\tcpu 6502\n-\tnop\n/\tnop\n-\tnop\n\tbne -\n\tbne --\n',
+    'f_tmplab': '\tcpu 6502\n-\tnop\n/\tnop\n\tbne -\n\tfoo\n',
+    'g_tmpuse': '\tcpu 6502\n\torg $10\n\tnop\n\tbne -\n+\tnop\n\tbne +\n+\tnop\n',
     'f_fatal': None,   # placeholder: fatal ends the run, nothing follows
     'f_defsym': '\tcpu 6502\nsym\tequ 5\nm1\tmacro\n\tnop\n\tendm\n\tfoo\n',
     'f_sh_literal': '\tcpu sh7600\n\torg 0\n\tmov.l #$cafebabe,r1\n\trts\n\tnop\n',       # fails: literal pool never flushed by LTORG
@@ -128,6 +132,9 @@ def subspaces(tier):
             for pred in ('g_nocpu', 'f_ok_defsym', 'f_macro', 'f_radix'):
                 yield {'k': 'seq', 'files': [pred, 'g_nocpu'], 'flags': fl}
                 yield {'k': 'seq', 'files': [pred, 'g_nocpu', 'g_nocpu'], 'flags': fl}
+        for pred in ('f_ok_tmplab', 'f_tmplab', 'g_tmpuse'):
+            yield {'k': 'seq', 'files': [pred, 'g_tmpuse'], 'flags': []}
+            yield {'k': 'seq', 'files': [pred, 'f_ok_defsym', 'g_tmpuse'], 'flags': []}
         for succ in ('g_166use',):
             for pred in ('f_ok_166pipe', 'f_ok_166sp', 'g_166use'):
                 yield {'k': 'seq', 'files': [pred, succ], 'flags': []}
